@@ -20,6 +20,21 @@ interleaving handler `RCx.wnd` (the real one is `window`): timers expire, servic
 inputs of the agenda arrive — all of which only ENQUEUE (plus `_fail`).  Wake-ups are ordered by
 (due time, creation order), external inputs first at equal times.
 
+ORDER WITHIN ONE INSTANT (async). asyncio's loop keeps ONE FIFO of ready callbacks; when it is empty the clock
+jumps to the next deadline and EVERY timer handle due then is moved to the FIFO at once (deadline, creation
+order), behind whatever is already in it; a new task's first step, a task that did `sleep(0)`, a task whose
+awaited future was resolved (`queue.get()` after a `put`) all go to the END of the FIFO. The model does not
+keep the FIFO: every entry of it has a STAMP taken from the one allocation counter `nextId` at the moment it
+was appended (for a sleeper: the creation order of its timer handle, `wseq` — older than anything appended
+in the instant at which it expires), and what runs next is the ready entry with the least stamp (`nextItem`).
+Ready entries: a sleeper that is due (`Item.wake`), a timer task that has not yet begun to sleep
+(`Item.tstart`), a service task before its first hop (`Item.hop`: `sleep(0)`, which re-appends it) and
+before the call of its service (`Item.call`), and the run loop (`Item.loop`, stamp `RT.lw`) once something
+has been put into the queue it was waiting on. Hence, at one instant: wake-ups that are due go BEFORE the
+first steps of tasks created in that instant, a task created by the interpreter needs two hops before its
+service is called (the run loop, woken meanwhile, goes first and may cancel it unstarted), and an external
+input that arrives at that instant goes before everything.
+
 Ghost fields (`acts`, `fired`, `started`, `clean`) exist for the theorems only: the code has no
 activation counter — which is exactly why findings F6/F7 exist.
 -/
@@ -54,8 +69,9 @@ structure Invocation where
   spec : SvcSpec
   handled : Bool       -- the invoke declares `onError`
   started : Bool       -- the service has been called (a task that never ran has not)
+  hopped : Bool        -- async, not yet started: the task's first step (`sleep(0)`) is done, the call is in the ready queue
   due : Nat            -- completion time, once started
-  wseq : Nat           -- creation order of its wake-up, once started
+  wseq : Nat           -- creation order of its wake-up, once started; before: the stamp of its next step in the ready queue
 deriving Repr, Inhabited, DecidableEq
 
 /-- user-supplied timing data: named delays, service registry, duration of (slow) actions -/
@@ -85,6 +101,8 @@ structure RT where
   clean : Bool := true                        -- ghost: no rollback, no entry of an already active state
   lt : Bool := false                          -- async: the run-loop task exists and is alive (waiting in `queue.get()` when idle);
                                               -- created by `start()` only AFTER entry + settling, and only if still running
+  lw : Option Nat := none                     -- async: the run-loop task is in the ready queue (just created: `lt` still false; or
+                                              -- woken by a `put` while it waited in `queue.get()`), with this stamp
 deriving Inhabited
 
 /-- context of a run: engine flavour, machine, user code, timing data, interleaving handler -/
@@ -186,7 +204,7 @@ def minWake (rt : RT) : Option Wake := minWakeL (wakes rt)
 /-- `stop()`: status, `cancel_all`, the run loop is cancelled -/
 def stopRT (rt : RT) : RT :=
   if rt.st.status = "uninitialized" ∨ rt.st.status = "stopped" then rt
-  else rlog "stop" { rt with st := { rt.st with status := "stopped" }, timers := [], invs := [], lt := false }
+  else rlog "stop" { rt with st := { rt.st with status := "stopped" }, timers := [], invs := [], lt := false, lw := none }
 
 def obsRec (m : Machine) (rt : RT) : String :=
   "obs:" ++ ",".intercalate (rt.st.cfg.map m.idOf) ++ ";" ++ rt.st.status ++ ";tasks=" ++ toString (rt.timers.length + rt.invs.length)
@@ -247,11 +265,28 @@ def windowLoop (fl : Flavor) (m : Machine) (untilT untilSeq : Nat) : Nat → RT 
     | .wake w => windowLoop fl m untilT untilSeq fuel (fireWakeQ fl w (setNow w.due rt))
     | .idle => rt
 
-/-- THE interleaving handler: the interpreter's task is suspended for `d` ms (`d = 0`: a bare yield) -/
+/-- service tasks whose first hop is done: their services are called (they are ahead, in the ready queue, of
+    every task created later) -/
+def callHopped (rt : RT) : RT :=
+  (rt.invs.filter (fun i => !i.started && i.hopped)).foldl startOne rt
+
+/-- THE interleaving handler: the interpreter's task is suspended for `d` ms (`d = 0`: a bare yield; the
+    `gather` in `cancel_by_owner` resumes only after everything that is in the ready queue, and the two
+    hops of the service tasks in it, are done).
+    async: what is already in the ready queue goes first — the wake-ups due at this very instant (their
+    timer handles fired together with the one that woke the interpreter; the interpreter's own sleep, if
+    any, is created before it yields: stamp `rt.nextId`) — then the tasks created since the last yield. -/
 def window (fl : Flavor) (m : Machine) (d : Nat) (rt : RT) : RT :=
-  let rt1 := startPending { rt with nextId := rt.nextId + 1 }
-  setNow (rt.now + d)
-    (windowLoop fl m (rt.now + d) rt.nextId (rt1.timers.length + rt1.invs.length + rt1.agenda.length + 1) rt1)
+  match fl with
+  | .sync =>
+    let rt1 := startPending { rt with nextId := rt.nextId + 1 }
+    setNow (rt.now + d)
+      (windowLoop fl m (rt.now + d) rt.nextId (rt1.timers.length + rt1.invs.length + rt1.agenda.length + 1) rt1)
+  | .async =>
+    let fuel := rt.timers.length + rt.invs.length + rt.agenda.length + 1
+    let rt1 := windowLoop fl m rt.now rt.nextId fuel { rt with nextId := rt.nextId + 1 }
+    let rt2 := startPending (callHopped rt1)
+    setNow (rt.now + d) (windowLoop fl m (rt.now + d) rt.nextId fuel rt2)
 
 -- cancel / schedule ------------------------------------------------------------------------------------
 /-- `_cancel_state_tasks(p)`: every timer and every service task of the owner, all of them -/
@@ -317,7 +352,7 @@ def schedInvsAsync (r : REnv) (p : Path) (a : Nat) : List Invoke → RT → RT
     | some sp =>
       schedInvsAsync r p a is
         { rt with invs := rt.invs ++ [{ owner := p, id := i.id, src := i.src.getD "", act := a, seq := rt.nextId, spec := sp,
-                                        handled := !i.onError.isEmpty, started := false, due := 0, wseq := 0 }],
+                                        handled := !i.onError.isEmpty, started := false, hopped := false, due := 0, wseq := rt.nextId }],
                   nextId := rt.nextId + 1 }
 
 /-- sync: the service runs inside the entry; its completion event is queued at once -/
@@ -513,24 +548,97 @@ def syncSendRT (c : RCx) (e : Ev) (rt : RT) : RT :=
 def loopRuns (c : RCx) (rt : RT) : RT :=
   { (asyncDrainRT c (asyncFuel c.m) rt) with lt := decide ((asyncDrainRT c (asyncFuel c.m) rt).st.status = "running") }
 
-/-- the interpreter's task is idle: pending service tasks get to run, then the queue is drained -/
+-- the ready queue of one instant (async) ---------------------------------------------------------------
+/-- an entry of the event loop's ready queue -/
+inductive Item where
+  | loop                      -- the run loop: just created, or woken by a `put` while it waited in `queue.get()`
+  | wake (w : Wake)           -- a sleeper whose deadline has come: a timer task / a service task
+  | tstart (t : Timer)        -- first step of a timer task: it begins to sleep
+  | hop (i : Invocation)      -- first step of a service task: `sleep(0)`, which re-appends it
+  | call (i : Invocation)     -- second step of a service task: the service is called
+deriving Inhabited
+
+/-- position in the ready queue: the value of the allocation counter when the entry was appended (`lw`:
+    the run loop's) -/
+def Item.stamp (lw : Nat) : Item → Nat
+  | .loop => lw
+  | .wake w => w.ord
+  | .tstart t => t.wseq
+  | .hop i => i.wseq
+  | .call i => i.wseq
+
+def readyItems (rt : RT) : List Item :=
+  (match rt.lw with | some _ => [Item.loop] | none => []) ++
+  ((wakes rt).filter (fun w => decide (w.due ≤ rt.now))).map .wake ++
+  (rt.timers.filter (fun t => !t.started)).map .tstart ++
+  (rt.invs.filter (fun i => !i.started)).map (fun i => if i.hopped then Item.call i else Item.hop i)
+
+/-- the entry with the least stamp (stamps are distinct, except the `0` of a run loop woken by an external
+    input — which goes first: it is the first of the list) -/
+def minItemL (lw : Nat) : List Item → Option Item
+  | [] => none
+  | x :: xs =>
+    match minItemL lw xs with
+    | none => some x
+    | some b => if b.stamp lw < x.stamp lw then some b else some x
+
+def nextItem (rt : RT) : Option Item := minItemL (rt.lw.getD 0) (readyItems rt)
+
+/-- one step of a task other than the run loop -/
+def runTask (it : Item) (rt : RT) : RT :=
+  match it with
+  | .loop => rt
+  | .wake w => fireWakeQ .async w rt
+  | .tstart t =>
+    { rt with timers := rt.timers.map (fun x => if x.seq = t.seq then { x with started := true, wseq := rt.nextId } else x),
+              nextId := rt.nextId + 1 }
+  | .hop i =>
+    { rt with invs := rt.invs.map (fun j => if j.seq = i.seq then { j with hopped := true, wseq := rt.nextId } else j),
+              nextId := rt.nextId + 1 }
+  | .call i => startOne rt i
+
+/-- the run loop waits in `queue.get()` and something has been put: its wake-up joins the ready queue -/
+def wakeLoop (rt : RT) : RT :=
+  if rt.lt && rt.lw.isNone && !rt.st.queue.isEmpty then { rt with lw := some rt.nextId, nextId := rt.nextId + 1 } else rt
+
+/-- the tasks that are in the ready queue ahead of the run loop (all of them if the run loop is not in it)
+    take their steps, in queue order; whatever they `put` wakes a waiting run loop -/
+def runTasks : Nat → RT → RT
+  | 0, rt => rt
+  | fuel + 1, rt =>
+    match nextItem (wakeLoop rt) with
+    | none => wakeLoop rt
+    | some it =>
+      match it with
+      | .loop => wakeLoop rt
+      | _ => runTasks fuel (runTask it (wakeLoop rt))
+
+/-- the run loop's turn. Running: it takes events until the queue is empty (`loopRuns`). Otherwise: if this
+    is its very first step (`lt = false`: created by `start()`, not yet run) the `while self.status ==
+    "running"` test fails and it ends without touching the queue; else it was waiting in `queue.get()` when
+    the status changed (`_fail` right after the error event was queued): woken, it re-checks the status
+    behind `get()`: the event in hand is DISCARDED (`task_done()`, nothing is received, no
+    `on_event_received`) and the loop ends (`break`); whatever else is queued stays in the queue, which
+    nothing drains any more -/
+def loopTurn (c : RCx) (rt : RT) : RT :=
+  if rt.st.status = "running" then loopRuns c { rt with lw := none }
+  else if !rt.lt then { rt with lw := none }
+  else
+    match rt.st.queue with
+    | _ :: rest => { rt with st := { rt.st with queue := rest }, lt := false, lw := none }
+    | [] => { rt with lt := false, lw := none }
+
+/-- the interpreter's own task is idle: everything that is ready at this instant runs, in the order of the
+    ready queue (sync: the timer threads created since the last yield begin to wait) -/
 def settle (c : RCx) : Nat → RT → RT
   | 0, rt => { rt with st := { rt.st with status := "HANG" } }
   | fuel + 1, rt =>
     match c.fl with
     | .sync => startPending rt
     | .async =>
-      let rt1 := startPending rt
-      if rt1.st.queue.isEmpty || !rt1.lt then rt1
-      else if rt1.st.status = "running" then settle c fuel (loopRuns c rt1)
-      else
-        -- the run loop was waiting in `queue.get()` when the status changed (`_fail` right after the
-        -- error event was queued). Woken, it re-checks the status behind `get()`: the event in hand is
-        -- DISCARDED (`task_done()`, nothing is received, no `on_event_received`) and the loop ends
-        -- (`break`); whatever else is queued stays in the queue, which nothing drains any more
-        match rt1.st.queue with
-        | _ :: rest => { rt1 with st := { rt1.st with queue := rest }, lt := false }
-        | [] => rt1
+      match (runTasks (2 * rt.timers.length + 3 * rt.invs.length + 2) rt).lw with
+      | none => runTasks (2 * rt.timers.length + 3 * rt.invs.length + 2) rt
+      | some _ => settle c fuel (loopTurn c (runTasks (2 * rt.timers.length + 3 * rt.invs.length + 2) rt))
 
 def startHooks (c : RCx) : Hooks :=
   match c.fl with
@@ -547,7 +655,7 @@ def startEv (c : RCx) : Option String :=
 def startFailed (c : RCx) (r : RT) : RT :=
   match c.fl with
   | .sync => r
-  | .async => { r with st := { r.st with status := "stopped" }, lt := false }
+  | .async => { r with st := { r.st with status := "stopped" }, lt := false, lw := none }
 
 def startEnter (c : RCx) (rt : RT) : RT :=
   let rt1 := enterAllRT c (startHooks c) (startEv c) (startEntries c.m).1
@@ -564,12 +672,11 @@ def timersSleep (rt : RT) : RT :=
     the engine's `asyncLoopCreated`: the run loop comes into being only HERE, after the initial entry and
     the eventless settling, and only if nothing (an unhandled service failure, `stop()`) has ended the
     run meanwhile; whatever was raised or sent during the entry is still in the queue. `start()` then
-    returns. The tasks created since its last yield are ahead of the new loop task: the timer tasks go to
-    sleep, the service tasks do their first hop (`sleep(0)`, which puts them BEHIND the loop task); then
-    the loop task runs for the first time (`loopRuns`: it takes what is queued; its first suspension
-    point, or the empty queue, is where those service tasks get to call their service). -/
-def loopCreated (c : RCx) (rt : RT) : RT :=
-  if rt.st.status = "running" then loopRuns c (timersSleep rt) else rt
+    returns. The new task's first step joins the ready queue BEHIND the first steps of the tasks created
+    since `start()` last yielded (the timer tasks go to sleep, the service tasks do their first hop, which
+    puts them behind the loop task); when its turn comes it takes what is queued (`settle`). -/
+def loopCreated (_c : RCx) (rt : RT) : RT :=
+  if rt.st.status = "running" then { rt with lw := some rt.nextId, nextId := rt.nextId + 1 } else rt
 
 def startFinish (c : RCx) (rt : RT) : RT :=
   match c.fl with
@@ -588,7 +695,11 @@ def extIdle (c : RCx) (op : ExtOp) (rt : RT) : RT :=
   match op with
   | .send e =>
     (match c.fl with
-     | .async => deliver (.user e) rt
+     | .async =>
+       -- the harness's `send` runs as a timer handle of this instant, ahead of the handles that wake the sleepers
+       -- due at the same instant: a run loop that was waiting in `queue.get()` is woken FIRST (stamp 0)
+       if (deliver (.user e) rt).lt && (deliver (.user e) rt).lw.isNone && !(deliver (.user e) rt).st.queue.isEmpty
+       then { (deliver (.user e) rt) with lw := some 0 } else deliver (.user e) rt
      | .sync =>
        -- `send` raises to its caller: an error of an earlier call is not the interpreter's state
        syncSendRT c (.user e) (rlog ("send:" ++ e ++ ":" ++ rt.st.status) { rt with st := { rt.st with err := none } }))
@@ -603,13 +714,12 @@ def fireTimerIdleSync (c : RCx) (t : Timer) (rt : RT) : RT :=
       (rlog ("send:" ++ t.evType ++ ":" ++ rt1.st.status) { rt1 with fired := t :: rt1.fired, st := { rt1.st with err := none } })
   else rt1
 
-/-- an engine wake-up at an idle interpreter. async: every wake-up of that instant is delivered
-    (enqueue-only) before the run loop resumes; sync: the timer thread itself calls `send` -/
+/-- an engine wake-up at an idle interpreter. async: the clock jumps to the deadline and the earliest
+    sleeper is woken (enqueue-only; the other sleepers due at that instant follow in `settle`, all of them
+    ahead of the run loop they wake); sync: the timer thread itself calls `send` -/
 def fireIdle (c : RCx) (w : Wake) (rt : RT) : RT :=
   match c.fl with
-  | .async =>
-    { (windowLoop .async c.m w.due rt.nextId (rt.timers.length + rt.invs.length + 1) (setNow w.due { rt with agenda := [] }))
-        with agenda := rt.agenda }
+  | .async => fireWakeQ .async w (setNow w.due rt)
   | .sync =>
     (match w with
      | .tm t => fireTimerIdleSync c t (setNow w.due rt)
